@@ -195,8 +195,11 @@ class C03(Check):
         return {SM.SEND_KEY: SM.SendMessageModular(), f"{BATCHING}::supports_batching": SupportsBatchingModular()}
 
     def contracts(self):
+        from checks import C13
+        # the tracked client's batching mode is decided by supports_batching: its contract (older than the cut-off, in
+        # code-point order, for every dddd-dd-dd string) is re-verified here instead of being taken on trust
         return [SendInitialize("given", "given"), SendInitialize("given", "none"), SendInitialize("default", "none"),
-                SendInitializeTracked()]
+                SendInitializeTracked()] + [C13.SupportsBatching(m) for m in ("dated", "none", "empty")]
 
     def canaries(self):
         return [
